@@ -26,8 +26,8 @@ var endedDs = []time.Duration{1, 100, 1 * us, 5 * us, 19 * us, 50 * us, 1 * ms}
 var midDs = []time.Duration{5 * us, 10 * us, 15 * us, 19 * us, 30 * us, 80 * us}
 
 func endedFirstCases(r *vkit.Report) {
-	r.Cases("ended", r.Scale(8, 20), 1, endedAlready)
-	r.Cases("ended-mid", r.Scale(12, 30), 1, endedMid)
+	r.Cases("ended", r.Scale(5, 16), 1, endedAlready)
+	r.Cases("ended-mid", r.Scale(8, 24), 1, endedMid)
 }
 
 func endedAlready(c *vkit.Case) {
